@@ -220,12 +220,15 @@ Proof.
   unfold dstep, step0, step. cbn [erase_state s_inopen s_stack s_counter s_heap].
   destruct (d_inopen st) as [[[hdr cnt] idx]|] eqn:Hin.
   - (* index phase *)
-    destruct t; try discriminate. rewrite top_flag.
+    destruct t; try discriminate; [rewrite top_flag| |].
     destruct (open_kind _ (idx ++ [bs])) as [[k|]|]; [| |discriminate]; intros H; inversion H; subst st'; clear H.
     + unfold erase_state. cbn [d_stack d_inopen d_counter d_heap]. f_equal. f_equal.
       destruct (kind_registers k); [|reflexivity].
       cbn [map reg_many]. rewrite erase_reg1. f_equal. fold (reg_many [cnt] (map erase_frame (d_stack st))). rewrite <- erase_reg. reflexivity.
     + reflexivity.
+    + (* PING between OPEN and its index tokens: ignored by both machines *)
+      intros H; inversion H; subst st'. unfold erase_state. rewrite Hin. reflexivity.
+    + intros H; inversion H; subst st'. unfold erase_state. rewrite Hin. reflexivity.
   - destruct t; try discriminate.
     + (* INT *) intros H. destruct (drecv_sim _ _ _ _ H) as [R [A B C]]. cbn [erase] in R. rewrite R.
       f_equal. symmetry. apply erase_state_eq; [reflexivity|exact A|exact B|rewrite C; reflexivity].
